@@ -65,12 +65,14 @@ impl StrSuffix {
     }
 
     fn bytes_prefix(&self) -> &[u8] {
-        for i in 0..(self.len().min(3)) {
+        let len = self.len().min(3);
+        for i in 0..len {
             if Self::is_char_boundary_byte(self.0[i]) {
                 return &self.0[..i];
             }
         }
-        &self.0[..0]
+        // The input ends inside (or right after) the continuation bytes
+        &self.0[..len]
     }
 
     pub fn restore_char(&self, prefix: &[u8]) -> char {
